@@ -128,11 +128,19 @@ func TestInstanceRingHistoryRapid(t *testing.T) {
 					return tk
 				}
 			}
+			// some writers (older lifecyclers) leave the Id field of their entries empty: clients fill it in from the key
+			legacyWriters := rapid.IntRange(0, 2).Draw(rt, "legacyWriters") == 0
+			idField := func(i int, id string) string {
+				if legacyWriters && i%2 == 1 {
+					return ""
+				}
+				return id
+			}
 			addInst := func(i int, at time.Time) {
 				id := fmt.Sprintf("i%d", i)
 				toks := []uint32{freshTok(), freshTok()}
 				sort.Slice(toks, func(a, b int) bool { return toks[a] < toks[b] })
-				cur[id] = ring.InstanceDesc{Id: id, Addr: id + ":1", Zone: zones[i%len(zones)], Tokens: toks, State: ring.ACTIVE, Timestamp: at.Unix(), RegisteredTimestamp: at.Unix() - int64(rapid.IntRange(0, 100).Draw(rt, "regAge"))}
+				cur[id] = ring.InstanceDesc{Id: idField(i, id), Addr: id + ":1", Zone: zones[i%len(zones)], Tokens: toks, State: ring.ACTIVE, Timestamp: at.Unix(), RegisteredTimestamp: at.Unix() - int64(rapid.IntRange(0, 100).Draw(rt, "regAge"))}
 			}
 			n0 := rapid.IntRange(1, 6).Draw(rt, "n0")
 			for i := 0; i < n0; i++ {
